@@ -24,7 +24,8 @@ ASSUMPTIONS = ASSUME_SIM + ["failpoints are placed at evaluator level only (stri
 MARK = "_mk"
 POSITIONS = ["input", "vars", "action", "tinput", "items", "concurrency", "delay", "retry_when", "retry_count",
              "retry_delay", "when", "publish", "output"]
-KINDS = ["missing_key", "wrong_type", "unknown_fn", "div_zero", "undefined"]
+KINDS = ["missing_key", "wrong_type", "unknown_fn", "div_zero", "undefined", "string_value"]
+STRING_VALUE_POSITIONS = ("items", "concurrency", "delay", "retry_count", "retry_delay")
 POINTS = ["start", "mid", "join", "loop2", "resume", "rerun"]
 
 
@@ -42,6 +43,7 @@ def bad_expr(kind, lang, boolean=False, loop=False):
             "unknown_fn": "nosuchfn_mk(1)",
             "div_zero": "1 / ctx(zero_mk)" if y else "1 / ctx('zero_mk')",
             "undefined": "ctx(late_mk)" if y else "ctx('late_mk')",
+            "string_value": "ctx(s_mk)" if y else "ctx('s_mk')",
         }[kind]
     return ("<%% %s %%>" % body) if lang == "yaql" else ("{{ %s }}" % body)
 
@@ -57,6 +59,8 @@ def template(position, kind, lang, point):
     if kind == "undefined" and (wf_level or loop):
         return None
     if loop and kind != "div_zero":
+        return None
+    if kind == "string_value" and position not in STRING_VALUE_POSITIONS:
         return None
     bad = bad_expr(kind, lang, boolean=position in ("when", "retry_when"), loop=loop)
     ok = "<% succeeded() %>" if lang == "yaql" else "{{ succeeded() }}"
@@ -167,10 +171,13 @@ class Containment(Monitor):
         self.stats = dict(reached=0)
 
     def _hit(self, errors):
+        if self.marker is None:
+            return [e for e in errors if not e.get("message", "").startswith("Execution failed")]
         return [e for e in errors if self.marker in e.get("message", "")]
 
     def on_call(self, run, ev):
-        if ev["exc"] is not None and self.marker in str(ev["exc"]):
+        if ev["exc"] is not None and (self.marker is None or self.marker in str(ev["exc"])) \
+                and not (ev["op"] == "req" or ev["op"] == "rerun"):
             if self.reached_step is None:
                 self.reached_step = run.step
                 self.stats["reached"] = 1
@@ -254,7 +261,7 @@ def templates(job):
             out["sets"].setdefault("rejected", set()).add("%s/%s/%s/%s" % (p, k, l, pt))
             continue
         for lazy in (0, 50):
-            cm = Containment(MARK, target=target, task_level=p not in ("input", "vars", "output"))
+            cm = Containment(None if k == "string_value" else MARK, target=target, task_level=p not in ("input", "vars", "output"))
             ms = [m for m in workloads.monitors() if m.name != "ledger"] + [cm]
             run = explore.make_run(dict(wf=wf, inputs=inputs, oseed=1, p_fail=0.0), ms, model=None,
                                    label="%s/%s/%s/%s" % (p, k, l, pt))
